@@ -6,7 +6,7 @@
 //
 //	statements   recv.Lock() / defer recv.Unlock()      (dropped: every method is one atomic step)
 //	             x := e                                 let x := e in
-//	             recv.f = e                             let q := set_f q e in
+//	             recv.f = e  (also += and -=)           let q := set_f q e in
 //	             if c { A } [else { B }]                (A,B assign only)  let q := if c then A else B in
 //	             if c { A; return e }  rest             if c then A; return e else rest
 //	             return e | return &AmqpQos{..}         (e, q) for a mutating method, e otherwise
@@ -275,7 +275,7 @@ func (f *fn) stmts(list []ast.Stmt, fall string, ind string) string {
 	}
 	s, rest := list[0], list[1:]
 	if isLockCall(f, s) {
-		return f.stmts(rest, fall, ind)
+		fail("the window's lock is taken or released inside the body (the model's one-step-per-call needs ONE critical section: Lock + defer Unlock at the top)")
 	}
 	switch x := s.(type) {
 	case *ast.AssignStmt:
@@ -313,6 +313,14 @@ func (f *fn) stmts(list []ast.Stmt, fall string, ind string) string {
 				fail("assignment to %s: width", sel.Sel.Name)
 			}
 			return ind + "let q := set_" + sel.Sel.Name + " q " + e + " in\n" + f.stmts(rest, fall, ind)
+		}
+		if x.Tok == token.ADD_ASSIGN || x.Tok == token.SUB_ASSIGN {
+			// recv.f += e  is  recv.f = recv.f + e
+			op := token.ADD
+			if x.Tok == token.SUB_ASSIGN {
+				op = token.SUB
+			}
+			return f.stmts(append([]ast.Stmt{&ast.AssignStmt{Lhs: x.Lhs, Tok: token.ASSIGN, Rhs: []ast.Expr{&ast.BinaryExpr{X: x.Lhs[0], Op: op, Y: x.Rhs[0]}}}}, rest...), fall, ind)
 		}
 		fail("assignment operator %s", x.Tok)
 	case *ast.ReturnStmt:
@@ -369,7 +377,7 @@ func (f *fn) stmts(list []ast.Stmt, fall string, ind string) string {
 	return ""
 }
 
-func translate(fd *ast.FuncDecl, name string, fields map[string]int) (def string, err string) {
+func translate(fd *ast.FuncDecl, name string, fields map[string]int) (def string, locked bool, err string) {
 	defer func() {
 		if r := recover(); r != nil {
 			u, ok := r.(unrec)
@@ -436,8 +444,22 @@ func translate(fd *ast.FuncDecl, name string, fields map[string]int) (def string
 	default:
 		fail("function without effect or result")
 	}
-	body := f.stmts(fd.Body.List, fall, "  ")
-	return "Definition " + name + params + " : " + typ + " :=\n" + body + ".\n", ""
+	// the single critical section: recv.Lock(); defer recv.Unlock() as the first two statements, nothing else
+	list := fd.Body.List
+	if len(list) >= 2 && f.recv != "" {
+		e, ok1 := list[0].(*ast.ExprStmt)
+		d, ok2 := list[1].(*ast.DeferStmt)
+		if ok1 && ok2 && isLockCall(f, list[0]) && isLockCall(f, list[1]) {
+			c1 := e.X.(*ast.CallExpr).Fun.(*ast.SelectorExpr).Sel.Name
+			c2 := d.Call.Fun.(*ast.SelectorExpr).Sel.Name
+			if c1 == "Lock" && c2 == "Unlock" {
+				locked = true
+				list = list[2:]
+			}
+		}
+	}
+	body := f.stmts(list, fall, "  ")
+	return "Definition " + name + params + " : " + typ + " :=\n" + body + ".\n", locked, ""
 }
 
 // ---- PopQos window loop ----------------------------------------------------
@@ -650,6 +672,7 @@ func genQos(c *trlib.Ctx) error {
 	}
 	sb.WriteString("].\n\n")
 
+	lockFacts := map[string]bool{}
 	for _, gname := range order {
 		cname := coqName[gname]
 		var fd *ast.FuncDecl
@@ -664,7 +687,9 @@ func genQos(c *trlib.Ctx) error {
 		case len(fields) == 0:
 			why = "struct not recognised"
 		default:
-			def, why = translate(fd, cname, fields)
+			var locked bool
+			def, locked, why = translate(fd, cname, fields)
+			lockFacts[cname] = locked
 		}
 		if why != "" {
 			problems = append(problems, gname+": "+why)
@@ -674,6 +699,20 @@ func genQos(c *trlib.Ctx) error {
 		}
 		sb.WriteString("(* " + gname + " *)\n" + def + "\n")
 	}
+
+	// lock discipline: which methods run their whole body under one acquisition of the window's mutex
+	sb.WriteString("(* does the method run its whole body under ONE acquisition of the window's lock (Lock(); defer Unlock() first)?\n" +
+		"   Inc, Dec, Release, Copy must (the model makes each call one atomic step); Update and IsActive are reported as found. *)\n")
+	for _, gname := range order[1:] {
+		cname := coqName[gname]
+		sb.WriteString("Definition " + cname + "_locked : bool := " + trlib.CoqBool(lockFacts[cname]) + ".\n")
+	}
+	for _, cname := range []string{"qos_inc", "qos_dec", "qos_release", "qos_copy"} {
+		if _, translated := lockFacts[cname]; translated && !lockFacts[cname] {
+			problems = append(problems, cname+": the body does not run under one Lock(); defer Unlock() critical section")
+		}
+	}
+	sb.WriteString("\n")
 
 	// PopQos
 	qf, err := c.Parse("queue/queue.go")
